@@ -599,6 +599,14 @@ impl<'r, 'c, 's, W: Write> DatumSerializer<'r, 'c, 's, W> {
 						let start = bytes.len().checked_sub(fixed.size).ok_or_else(|| {
 							SerError::custom("Decimals of size larger than 16 are not supported")
 						})?;
+						if start > sign_extension_len {
+							return Err(SerError::custom(format_args!(
+								"Decimal number does not fit in `fixed` field size \
+									(fixed size: {}, required: {})",
+								fixed.size,
+								bytes.len() - sign_extension_len
+							)));
+						}
 						&bytes[start..]
 					}
 				};
